@@ -115,6 +115,35 @@ def run(ctx: Ctx) -> Result:
             res.note_case(('sugar', src, rep))
             got = comp(src)
             if got != want: viol(src, want.hex(), got.hex() if isinstance(got, bytes) else got, 'sugar / macro / comptime')
+    # (3b) string values: `s"..."` pushes exactly the UTF-8 bytes written between the quotes
+    k8 = []
+    def strcase(src, value, k8_class):
+        res.note_case(('str', src))
+        got = comp(src); want = g.push_enc(value.encode('utf-8'))
+        if got == want: return
+        if k8_class: k8.append((src, want.hex(), got.hex() if isinstance(got, bytes) else got))
+        else: viol(src, want.hex(), got.hex() if isinstance(got, bytes) else got, 'string value')
+    words = ['a', 'hello', 'Hello', 'x1', 'd5', 'true', 'if', '{', '}', '#', 'é', '日本', 'sigfield1', '!m', '@k', "it's" if False else 'its']
+    for rep in range(ctx.n(60, 600)):
+        ws = [rng.choice(words) for _ in range(rng.randrange(1, 5))]
+        q = rng.choice(['"', "'"])
+        val = ' '.join(ws)
+        if len(val) < 2: val += 'z'
+        strcase(f'push s{q}{val}{q}', val, False)
+        strcase(f'true push s{q}{val}{q} false', val, False) if False else None
+    # the recorded tokenizer defect K8 (each probe is classified by what is written, not by the outcome)
+    strcase('push s"a  b"', 'a  b', True)            # two spaces inside the quotes
+    strcase('push s"a\tb"', 'a\tb', True)            # a tab inside the quotes
+    strcase('push s"a\nb"', 'a\nb', True)            # a newline inside the quotes
+    strcase('push S"hello"', 'hello', True)          # upper-case value prefix
+    strcase('push shello', 'hello', True)            # unquoted string value
+    from ..core import known_ids
+    if k8:
+        if 'K8' in known_ids('C11'):
+            res.known.append(('K8', f'the tokenizer alters string values: {len(k8)} of 5 probes, e.g. `{k8[0][0]}` assembles to {k8[0][2]} instead of {k8[0][1]}'))
+        else:
+            res.violations.append({'finding': 'K8', 'input': {'source': k8[0][0], 'clause': 'string value'}, 'expected': k8[0][1], 'observed': k8[0][2], 'how_to_run': 'tapescript.parsing.compile_script(source)'})
+    res.stats['K8_probes_failing'] = len(k8)
     # (4) unencodable sources must be rejected, never mis-assembled
     bad_sources = ['push x', 'push x' + 'ab' * 65536, 'add_ints d256', 'add_ints d-129', 'add_ints x0102', 'swap d256 d0', 'swap d1', 'merkleval x00',
                    'if { push x' + 'ab' * 65535 + ' }', 'def 256 { }', 'def 0 { ', 'if { true', 'op_nonexistent', 'nop300 d1', 'nop92 d200', 'write_cache xaa d256',
